@@ -1218,6 +1218,73 @@ fn report_violation(case: &Case, probe: &Probe, sig: &'static str, detail: Strin
     report.violation(sig, detail, history(&c, &p));
 }
 
+// ---- builder stage: CancelOrders(None) over links assembled by the library's own ExecutionBuilder ------------
+
+use vharness::builder_stage::{self, BuilderCase};
+
+fn judge_builder(case: &BuilderCase) -> Result<(u64, u64, Vec<&'static str>), V> {
+    let obs = builder_stage::run_builder_case(case).map_err(|e| if e.starts_with("PANIC") { ("panic_in_engine_process", e) } else { ("HARNESS_builder_stage", e) })?;
+    let mut cells = vec![];
+    let mut checks = 0u64;
+    let ins = builder_stage::indexed(case);
+    let name_of = |i: usize| ins.instruments()[i].value.name_exchange.clone();
+    let mut want = 0usize;
+    for (i, cid, _id, cancelling, slot, linked) in &obs.tracked_before_cancel_all {
+        checks += 2;
+        let hits: Vec<&(usize, fixtures::ClientCall)> = obs.cancel_all_calls.iter().filter(|(_, c)| !c.is_open && c.cid.0.as_str() == cid && c.instrument == name_of(*i)).collect();
+        if *cancelling || !*linked {
+            if !hits.is_empty() {
+                return Err((if *cancelling { "cancel_sent_for_order_already_cancel_in_flight" } else { "request_delivered_to_wrong_link" }, format!("builder stage: order {cid} on instrument {i}: {hits:?}")));
+            }
+            continue;
+        }
+        want += 1;
+        if hits.is_empty() {
+            return Err(("cancel_not_sent_for_tracked_order_in_filter", format!("builder stage (links from ExecutionBuilder, {} of {} exchanges linked): CancelOrders(None) requested no cancel for tracked order {cid} on instrument {i} ({}) of {:?}; the clients received {:?}; audit (sent, errors) = {:?}", obs.n_linked, obs.n_exchanges, name_of(*i), builder_stage::LIVE[*slot], obs.cancel_all_calls.iter().map(|(x, c)| (builder_stage::LIVE[*x], c.instrument.to_string(), c.cid.0.to_string())).collect::<Vec<_>>(), obs.cancel_all_claim)));
+        }
+        if hits.len() > 1 {
+            return Err(("cancel_sent_more_than_once", format!("builder stage: order {cid} on instrument {i}: {hits:?}")));
+        }
+        if hits[0].0 != *slot || hits[0].1.exchange != builder_stage::LIVE[*slot] {
+            return Err(("request_delivered_to_wrong_link", format!("builder stage: the cancel of {cid} on instrument {i} ({:?}) arrived at the client of {:?} addressed to {:?}", builder_stage::LIVE[*slot], builder_stage::LIVE[hits[0].0], hits[0].1.exchange)));
+        }
+    }
+    checks += 2;
+    if obs.cancel_all_calls.len() != want {
+        return Err(("cancel_set_differs_from_expected", format!("builder stage: {want} tracked orders to cancel, the clients received {:?}", obs.cancel_all_calls)));
+    }
+    if obs.cancel_all_claim != (want, 0) {
+        return Err(("audit_sent_differs_from_delivered", format!("builder stage: audit reports (sent, errors) = {:?}, {want} cancels were due and delivered", obs.cancel_all_claim)));
+    }
+    if want > 0 {
+        cells.push("builder:cancel_all_over_builder_links");
+        if obs.gap_before_linked {
+            cells.push("builder:cancel_all_with_unlinked_exchange_before_a_linked_one");
+        }
+    }
+    Ok((obs.cancel_all_calls.len() as u64 + obs.tracked_before_cancel_all.len() as u64, checks, cells))
+}
+
+fn execute_builder(case: &BuilderCase, report: &mut Report) {
+    let h = fnv1a(format!("builder{case:?}").as_bytes());
+    match judge_builder(case) {
+        Ok((events, checks, cells)) => {
+            report.events_observed += events;
+            report.oracle_checks += checks;
+            let nontrivial = cells.contains(&"builder:cancel_all_with_unlinked_exchange_before_a_linked_one");
+            for c in &cells {
+                report.cover(c);
+            }
+            report.case(h, nontrivial);
+        }
+        Err((sig, detail)) if sig.starts_with("HARNESS_") => report.harness_errors.push(format!("{sig}: {detail}")),
+        Err((sig, detail)) => {
+            report.case(h, true);
+            report.violation(sig, detail, json!({"builder_case": case}));
+        }
+    }
+}
+
 fn execute(case: &Case, probes: &[Probe], report: &mut Report) {
     let h = fnv1a(format!("{:?}{:?}", case.universe, case.setup).as_bytes());
     let tb = match table(&case.universe) {
@@ -1276,6 +1343,13 @@ fn main() {
     if let Some(path) = &args.replay {
         let v: Value = serde_json::from_str(&std::fs::read_to_string(path).expect("read replay")).expect("json");
         let hst = &v["history"];
+        if !hst["builder_case"].is_null() {
+            let case: BuilderCase = serde_json::from_value(hst["builder_case"].clone()).expect("builder case");
+            let mut report = Report::new("C19");
+            execute_builder(&case, &mut report);
+            println!("{}", serde_json::to_string_pretty(&report.to_json()).unwrap());
+            std::process::exit(if report.violation_count > 0 { 1 } else { 0 });
+        }
         let case = Case { universe: serde_json::from_value(hst["universe"].clone()).expect("universe"), setup: serde_json::from_value(hst["setup"].clone()).expect("setup") };
         let probe = Probe {
             filter: serde_json::from_value(hst["filter"].clone()).expect("filter"),
@@ -1308,6 +1382,11 @@ fn main() {
         "tsan" => 40,
         _ => args.size(3_000, 500_000),
     };
+    let n_builder = match args.tier.as_str() {
+        "miri" => 1,
+        "tsan" => 8,
+        _ => args.size(300, 20_000),
+    };
     let mut report = run_workers(&args, "C19", |w, n, rng, report| {
         for k in 0..Args::share(n_cases, w, n) {
             // half of the states are small (<= 8 instruments) and get EVERY filter; the others are
@@ -1329,6 +1408,12 @@ fn main() {
             };
             report.info(if class == Class::Large { "probes_on_large_states" } else { "probes_on_small_states" }, probes.len() as u64);
             execute(&Case { universe, setup }, &probes, report);
+        }
+        for _ in 0..Args::share(n_builder, w, n) {
+            let mut case = builder_stage::gen_builder_case(rng, miri);
+            // keep the opens (no explicit cancels): the final cancel-all is what is judged here
+            case.requests.retain(|r| r.open);
+            execute_builder(&case, report);
         }
     });
     if !miri {
@@ -1366,6 +1451,8 @@ fn main() {
             "dead_link_round:cancel",
             "dead_link_round:close",
             "dead_link_round:healthy_exchange_after_the_dead_one",
+            "builder:cancel_all_over_builder_links",
+            "builder:cancel_all_with_unlinked_exchange_before_a_linked_one",
         ] {
             report.require(c);
         }
